@@ -26,7 +26,7 @@ from pprint import pformat
 
 from urwid.canvas import CanvasError, TextCanvas
 from urwid.display.escape import SAFE_ASCII_DEC_SPECIAL_RE
-from urwid.util import apply_target_encoding, str_util
+from urwid.util import apply_target_encoding, get_encoding, str_util
 
 if typing.TYPE_CHECKING:
     from collections.abc import Iterator, Sequence
@@ -203,7 +203,7 @@ class Font(metaclass=FontRegistry):
             raise ValueError(f'"data" is empty: {self.data!r}')
 
         self.char: dict[str, tuple[int, list[str]]] = {}
-        self.canvas: dict[str, TextCanvas] = {}
+        self.canvas: dict[tuple[str, str], TextCanvas] = {}  # (character, target encoding) -> rendered glyph
         self.utf8_required = False
         if isinstance(self.data, str):
             self.add_glyphs(self.data)
@@ -239,6 +239,7 @@ class Font(metaclass=FontRegistry):
         d, utf8_required = separate_glyphs(gdata, self.height)
         self.char.update(d)
         self.utf8_required |= utf8_required
+        self.canvas.clear()  # glyphs may have been redefined
 
     def characters(self) -> str:
         return "".join(sorted(self.char))
@@ -252,8 +253,10 @@ class Font(metaclass=FontRegistry):
         return self.char[character][1]
 
     def render(self, character: str) -> TextCanvas:
-        if character in self.canvas:
-            return self.canvas[character]
+        # the bytes of a glyph depend on the target encoding
+        key = (character, get_encoding())
+        if key in self.canvas:
+            return self.canvas[key]
         width, line = self.char[character]
         byte_lines = []
         character_set_lines = []
@@ -269,7 +272,7 @@ class Font(metaclass=FontRegistry):
                 exc.__traceback__
             ) from exc
 
-        self.canvas[character] = canv
+        self.canvas[key] = canv
         return canv
 
 
